@@ -81,3 +81,130 @@ fn collect(ctx: &Ctx, map: &MergedSelectionMap, path: &str, indent: u8, level: &
         }
     }
 }
+
+// ---------------------------------------------------------------------------------------------
+// Black-box project level: the aliases in the cooked OPERATION TEXT against the runtime's key for
+// the matching node of the emitted normalization AST.
+use crate::node::{DriverError, NodeSession};
+use refgql::{Selection, SelectionSet};
+use serde_json::Value;
+
+#[derive(Debug, Default, Clone)]
+pub struct OperationKeyStats {
+    pub fields: usize,
+    pub fields_with_arguments: usize,
+    pub selection_sets: usize,
+    /// operation and normalization AST do not have the same shape (C11's business): not judged
+    pub shape_mismatch: Option<String>,
+}
+
+fn args_differ_only_in_non_word_string_chars(a: &refgql::Value, b: &refgql::Value) -> bool {
+    use refgql::Value as V;
+    match (a, b) {
+        (V::String(x), V::String(y)) => crate::keys::map_nonword(&x.value) == crate::keys::map_nonword(&y.value),
+        (V::Object(x), V::Object(y)) => x.len() == y.len() && x.iter().zip(y).all(|((ka, va), (kb, vb))| ka == kb && args_differ_only_in_non_word_string_chars(va, vb)),
+        (V::List(x), V::List(y)) => x.len() == y.len() && x.iter().zip(y).all(|(va, vb)| args_differ_only_in_non_word_string_chars(va, vb)),
+        (x, y) => x == y,
+    }
+}
+
+/// Every selection set of the operation: (1) two fields with the same response key select the
+/// same field with the same arguments; (2) each field's response key (alias, or name) equals
+/// `getNetworkResponseKey` of the normalization-AST node at the same position.
+/// `escape_in_sources` = the program's iso literals contain a backslash (names the recorded root
+/// cause `disagree:escape-sequence` when a key of a string argument differs).
+pub fn check_operation_keys(
+    session: &mut NodeSession,
+    selection_set: &SelectionSet,
+    normalization: &Value,
+    path: &str,
+    escape_in_sources: bool,
+    stats: &mut OperationKeyStats,
+    fails: &mut Vec<Fail>,
+) -> Result<(), DriverError> {
+    stats.selection_sets += 1;
+    let nodes = normalization.as_array().cloned().unwrap_or_default();
+    if nodes.len() != selection_set.items.len() {
+        stats.shape_mismatch.get_or_insert(format!("{path}: {} selections in the operation, {} normalization nodes", selection_set.items.len(), nodes.len()));
+        return Ok(());
+    }
+    // (1) distinctness in this selection set (fields of inline fragments share the response object)
+    let mut level: Vec<&refgql::Field> = vec![];
+    fn gather<'s>(set: &'s SelectionSet, out: &mut Vec<&'s refgql::Field>) {
+        for i in &set.items {
+            match i {
+                Selection::Field(f) => out.push(f),
+                Selection::InlineFragment(fr) => gather(&fr.selection_set, out),
+                Selection::FragmentSpread(_) => {}
+            }
+        }
+    }
+    gather(selection_set, &mut level);
+    for (i, a) in level.iter().enumerate() {
+        for b in &level[i + 1..] {
+            if a.response_key() == b.response_key() && (a.name != b.name || a.arguments != b.arguments) {
+                let only_non_word = a.name == b.name
+                    && a.arguments.len() == b.arguments.len()
+                    && a.arguments.iter().zip(&b.arguments).all(|(x, y)| x.name == y.name && args_differ_only_in_non_word_string_chars(&x.value, &y.value));
+                let sig = if only_non_word { crate::gen12::SIG_NONWORD } else { "collision:in-operation" };
+                fails.push(Fail::new(
+                    sig,
+                    format!("in selection set {path}: two different selections share the response key {:?}\n  {}\n  {}", a.response_key(), refgql_field(a), refgql_field(b)),
+                ));
+            }
+        }
+    }
+    // (2) agreement, node by node
+    for (item, node) in selection_set.items.iter().zip(&nodes) {
+        match (item, node["kind"].as_str()) {
+            (Selection::Field(f), Some(kind @ ("Scalar" | "Linked"))) => {
+                if node["fieldName"].as_str() != Some(f.name.as_str()) || (kind == "Linked") != f.selection_set.is_some() {
+                    stats.shape_mismatch.get_or_insert(format!("{path}: operation field {} vs normalization node {}", f.name, node["fieldName"]));
+                    return Ok(());
+                }
+                stats.fields += 1;
+                if !f.arguments.is_empty() {
+                    stats.fields_with_arguments += 1;
+                }
+                let mut case = serde_json::json!({"kind": "response_key", "fieldName": f.name, "linked": kind == "Linked"});
+                case["arguments"] = node["arguments"].clone();
+                let r = session.call(case)?;
+                let key = f.response_key();
+                match r["key"].as_str() {
+                    Some(k) if k == key => {}
+                    other => {
+                        let has_string = node["arguments"].to_string().contains("\"String\"");
+                        let sig = if escape_in_sources && has_string { crate::gen12::SIG_ESCAPE } else { "disagree:in-operation" };
+                        fails.push(Fail::new(
+                            sig,
+                            format!(
+                                "in selection set {path}: the operation names the field {:?} (alias or name) but the runtime computes {:?} for its normalization node\n  {}\n  node arguments: {}",
+                                key,
+                                other.map(|s| s.to_string()).unwrap_or_else(|| format!("<threw {}>", r["threw"])),
+                                refgql_field(f),
+                                node["arguments"]
+                            ),
+                        ));
+                    }
+                }
+                if let Some(sub) = &f.selection_set {
+                    check_operation_keys(session, sub, &node["selections"], &format!("{path}.{key}"), escape_in_sources, stats, fails)?;
+                }
+            }
+            (Selection::InlineFragment(fr), Some("InlineFragment")) => {
+                let p = format!("{path}[... on {}]", fr.type_condition.as_deref().unwrap_or("?"));
+                check_operation_keys(session, &fr.selection_set, &node["selections"], &p, escape_in_sources, stats, fails)?;
+            }
+            _ => {
+                stats.shape_mismatch.get_or_insert(format!("{path}: selection kind differs from normalization node kind {}", node["kind"]));
+                return Ok(());
+            }
+        }
+    }
+    Ok(())
+}
+
+fn refgql_field(f: &refgql::Field) -> String {
+    let args: Vec<String> = f.arguments.iter().map(|a| format!("{}: {}", a.name, refgql::print_value(&a.value))).collect();
+    format!("{}{}{}", f.alias.as_ref().map(|a| format!("{a}: ")).unwrap_or_default(), f.name, if args.is_empty() { String::new() } else { format!("({})", args.join(", ")) })
+}
